@@ -21,7 +21,7 @@ META = dict(
 
 def run(c):
     thorough = c.tier == "thorough"
-    gen = mc_codec(c, 2 if thorough else 1, shards=9 if thorough else 3, liveness=not thorough)
+    gen = mc_codec(c, 2 if thorough else 1, shards=9 if thorough else 3, liveness=not thorough, deep=() if thorough else deep_messages(c, 4))
     drv = c.build_driver("codec")
     cases = []
     fam_entry = {"GMM": "gmm", "GSM": "gsm"}
